@@ -20,6 +20,25 @@ func main() {
 	if run.Thorough() {
 		deadline = time.Now().Add(25 * time.Minute)
 	}
+	if run.Replay != "" {
+		var rp struct {
+			Front_end string
+			Capacity  int
+			Keys      int
+			Path      []lruh.Op
+		}
+		if _, _, err := run.LoadReplay(&rp); err != nil {
+			ev.Infra("replay: %v", err)
+		}
+		fmt.Println("replaying:", rp.Front_end, "capacity", rp.Capacity, lruh.FormatPath(rp.Path))
+		s := lruh.New(rp.Front_end, rp.Capacity, rp.Keys)
+		for _, o := range rp.Path {
+			if sig, det := s.Apply(o); sig != "" {
+				run.ReplayVerdict("lru "+sig, det)
+			}
+		}
+		run.ReplayVerdict("", "")
+	}
 	var samples ev.Samples
 	states, trans := 0, int64(0)
 	fix := true
@@ -54,7 +73,7 @@ func main() {
 			fix = fix && st.Fixpoint
 			per = append(per, map[string]any{"front_end": kind, "capacity": capa, "inner_keys": keys, "states": st.States, "transitions": st.Transitions, "depth": st.Depth, "fixpoint": st.Fixpoint, "capped": st.Capped})
 			for _, f := range found {
-				run.Violation("lru "+f.V.Sig, f.V.Detail+"\nhistory: "+lruh.FormatPath(f.Path), map[string]any{"front_end": kind, "capacity": capa, "ops": lruh.FormatPath(f.Path)})
+				run.Violation("lru "+f.V.Sig, f.V.Detail+"\nhistory: "+lruh.FormatPath(f.Path), map[string]any{"front_end": kind, "capacity": capa, "keys": keys, "ops": lruh.FormatPath(f.Path), "path": f.Path})
 			}
 			samples.Add(fmt.Sprintf("%s capacity=%d keys=%d: states=%d transitions=%d depth=%d fixpoint=%v %s", kind, capa, keys, st.States, st.Transitions, st.Depth, st.Fixpoint, st.Capped))
 		}
